@@ -3,8 +3,10 @@
 Theorems: coq/Props/C15.v over coq/Model/CostSpec.v (any registration list).
 Correspondence: the real CostSpec is driven through every ordered selection of the 4 patterns
 of a layer type x the 8 satisfaction subsets x both default behaviours x 3 layer types
-(exhaustive, 3120 lookups), through every built-in spec x a layer catalogue, and through a
-seeded stream with duplicate registrations; the model is evaluated on the same registration
+(exhaustive, 3120 lookups), through every built-in spec x a layer catalogue, through a
+seeded stream with duplicate registrations, through the built-in constraints on a catalogue of layer
+descriptions (channel multipliers, 1-channel layers, mixed kernels) against the documented definitions,
+and through register/lookup interleavings on one CostSpec object (live object == fresh object == model); the model is evaluated on the same registration
 lists inside Coq (vm_compute) and the outcomes are compared.
 Oracle (search): the documented three-way rule + order independence, computed in Python
 directly on the implementation.
@@ -150,6 +152,83 @@ def builtin_cases(nn, pt):
     return out
 
 
+# ----------------------------------------------------------------------------- constraint semantics + sequences
+def dw_readme(spec):
+    """plinio/cost/README.md: depthwise = as many groups as input AND output channels"""
+    return spec['groups'] == spec['in_channels'] == spec['out_channels']
+
+
+def k3_readme(spec):
+    return all(k == 3 for k in spec['kernel_size'])
+
+
+def layer_catalogue():
+    """conv layer descriptions incl. grouped convs with a channel multiplier, 1-channel layers, mixed kernels"""
+    out = []
+    for nd in (1, 2):
+        for cin in (1, 2, 3, 4, 8):
+            for mult in (1, 2, 3):
+                for groups in sorted({1, cin, 2 if cin % 2 == 0 else 1}):
+                    cout = groups * mult if groups > 1 else (cin * mult if mult > 1 else cin)
+                    for ks in ((3,) * nd, (5,) * nd, (1,) * nd) + (((3, 1), (1, 3)) if nd == 2 else ()):
+                        out.append(('Conv%dd' % nd, {'in_channels': cin, 'out_channels': cout, 'groups': groups, 'kernel_size': ks}))
+    return out
+
+
+def sequence_cases(ctx, pt):
+    """register / lookup interleavings on ONE CostSpec object: [('reg', type, cid, tag) | ('get', type, spec index)]"""
+    pats = [None, 0, 1, 2]
+    cases = []
+    n = 150 if ctx.quick else 1500
+    for _ in range(n):
+        ty = ctx.rng.choice(TYPES)
+        ops, tag = [], 200
+        for _ in range(ctx.rng.randint(3, 9)):
+            if ctx.rng.random() < 0.55:
+                ops.append(('reg', ty if ctx.rng.random() < 0.8 else ctx.rng.choice(TYPES), ctx.rng.choice(pats), tag))
+                tag += 1
+            else:
+                ops.append(('get', ty, ctx.rng.randrange(8)))
+        ops.append(('get', ty, ctx.rng.randrange(8)))
+        cases.append({'ops': ops, 'default': ctx.rng.choice(['zero', 'fail'])})
+    return cases
+
+
+def run_sequence(cs, nn, pt, c, cons_by_type, specs_by_type):
+    """-> list of (registrations so far, type, layer spec, satisfied, outcome on the LIVE object, outcome on a FRESH object)"""
+    spec = cs.CostSpec(default_behavior=c['default'])
+    fns, regs, out = {}, [], []
+
+    def outcome(sp, ty, ls, fns_):
+        try:
+            fn = sp[(getattr(nn, ty), ls)]
+        except KeyError:
+            return -2
+        for tg, f in fns_.items():
+            if fn is f:
+                return tg
+        return -1 if fn is sp.default else -3
+    for op in c['ops']:
+        if op[0] == 'reg':
+            _, t, cid, tag = op
+            f = (lambda tag: (lambda s: tag))(tag)
+            fns[tag] = f
+            spec[(getattr(nn, t), None if cid is None else cons_by_type[t][cid])] = f
+            regs.append((t, cid, tag))
+        else:
+            _, ty, si = op
+            ls = specs_by_type[ty][si]
+            sat = [i for i, k in enumerate(cons_by_type[ty]) if k(ls)]
+            fresh = cs.CostSpec(default_behavior=c['default'])
+            ffns = {}
+            for (t, cid, tag) in regs:
+                g = (lambda tag: (lambda s: tag))(tag)
+                ffns[tag] = g
+                fresh[(getattr(nn, t), None if cid is None else cons_by_type[t][cid])] = g
+            out.append((list(regs), ty, ls, sat, outcome(spec, ty, ls, fns), outcome(fresh, ty, ls, ffns)))
+    return out
+
+
 def run(ctx):
     torch, nn, cs, pt = _env()
     built = ctx.build()
@@ -227,6 +306,57 @@ def run(ctx):
                           'lookup outcome depends on registration order: %s' % sorted(outs))
     for b in bmism:
         ctx.violation('builtin-lookup-differs-from-rule', b, 'built-in spec lookup differs from the rule: %s' % b)
+
+    # ---- (d) what the built-in constraints accept, against the documented definitions (README): channel multipliers,
+    #          1-channel layers and mixed kernels included; lookups with the DW / 3x3 patterns on the same catalogue
+    for tyn, ls in layer_catalogue():
+        got = (bool(pt.conv_dw_constraint(ls)), bool(pt.conv_3_constraint(ls)))
+        exp = (dw_readme(ls), k3_readme(ls))
+        ctx.case(('constraint', tyn, repr(ls)), nontrivial=True, kind='constraint-semantics')
+        ctx.corr += 1
+        if got != exp:
+            ctx.violation('constraint-differs-from-documented-definition', {'case': {'type': tyn, 'layer_spec': ls}, 'impl(dw,3x3)': got, 'documented(dw,3x3)': exp},
+                          'conv_dw_constraint / conv_3_constraint on %s %s give %s, the documented definitions give %s' % (tyn, ls, got, exp))
+            continue
+        ty = getattr(nn, tyn)
+        sp = cs.CostSpec(default_behavior='fail')
+        f0, f1, f2 = (lambda s_: 0), (lambda s_: 1), (lambda s_: 2)
+        sp[(ty, None)] = f0
+        sp[(ty, pt.conv_dw_constraint)] = f1
+        sp[(ty, pt.conv_3_constraint)] = f2
+        try:
+            o = {id(f0): 10, id(f1): 11, id(f2): 12}.get(id(sp[(ty, ls)]), -3)
+        except KeyError:
+            o = -2
+        want = -2 if (exp[0] and exp[1]) else 11 if exp[0] else 12 if exp[1] else 10
+        if o != want:
+            ctx.violation('lookup-differs-from-rule', {'case': {'regs': [(tyn, None, 10), (tyn, 0, 11), (tyn, 1, 12)], 'ty': tyn, 'spec': ls, 'sat': [i for i, b in enumerate(exp) if b], 'default': 'fail'},
+                                                       'impl_outcome': o, 'rule_outcome': want},
+                          'lookup for %s %s returned %s, the documented rule gives %s (10 generic, 11 depthwise, 12 3x3, -2 conflict)' % (tyn, ls, o, want))
+
+    # ---- (e) registrations interleaved with lookups on one CostSpec object: every lookup must equal the lookup on a
+    #          fresh object with the registrations made so far (and the model on that prefix)
+    specs_by_type = {t: constraints_for(t, pt)[1] for t in TYPES}
+    seq_obs = []
+    for c in sequence_cases(ctx, pt):
+        obs = run_sequence(cs, nn, pt, c, cons_by_type, specs_by_type)
+        ctx.case(('seq', repr(c['ops']), c['default']), nontrivial=True, kind='sequence', sample={'ops': c['ops'], 'default': c['default']} if len(seq_obs) < 2 else None)
+        for (regs, ty, ls, sat, live, fresh) in obs:
+            seq_obs.append((regs, ty, sat, live))
+            if live != fresh:
+                ctx.violation('lookup-depends-on-earlier-lookups', {'sequence': c, 'registrations_so_far': regs, 'lookup_type': ty, 'layer_spec': ls, 'live_object': live, 'fresh_object': fresh},
+                              'after the sequence %s the lookup for %s %s returned %s on the live CostSpec but %s on a fresh one with the same registrations' % (c['ops'], ty, ls, live, fresh))
+    if built and model_ok and seq_obs:
+        try:
+            exprs = ['run_lookup %s %s %s' % (coq(coq_regs(r)), coq(Nat(TYPES.index(t))), coq([Nat(x) for x in sat])) for (r, t, sat, _) in seq_obs]
+            mvals = ctx.coq_eval_sharded('seq', ['Plinio.Model.CostSpec'], '', exprs, shard=600)
+            for (r, t, sat, live), m in zip(seq_obs, mvals):
+                ctx.corr += 1
+                if live != m:
+                    mism.append(({'regs': r, 'ty': t, 'sat': sat, 'kind': 'sequence'}, live, m))
+        except RuntimeError as e:
+            model_ok = False
+            ctx.notes.append('model evaluation failed: ' + str(e)[-500:])
 
     # ---- broken proof / correspondence without a failing input
     if not ctx.violations:   # a printed KNOWN-FINDING must not hide a broken proof / model / correspondence
